@@ -16,7 +16,7 @@ use std::cell::RefCell;
 use std::collections::HashMap;
 use std::sync::atomic::{AtomicBool, AtomicU64, Ordering};
 use std::sync::Arc;
-use std::time::{Duration, Instant};
+use std::time::Duration;
 
 thread_local! {
     static TRACE: RefCell<Vec<Vec<String>>> = RefCell::new(vec![]);
@@ -131,20 +131,45 @@ fn end_table(state: &HashMap<String, StateValue>) -> String {
 }
 
 fn main() {
-    // watchdog: a script that runs longer than 3 s is halted and reported as HANG
+    // watchdog: a script whose thread has consumed more CPU time than the fuse (measured in on-CPU
+    // nanoseconds of the main thread, /proc/self/schedstat, so that a loaded machine cannot trip
+    // it) is halted and reported as HANG.  `deadline` holds (case number << 20 | fuse in ms).
     let halt = Arc::new(AtomicBool::new(false));
     let deadline = Arc::new(AtomicU64::new(0));
-    let t0 = Instant::now();
+    fn cpu_ns() -> u64 {
+        std::fs::read_to_string("/proc/self/schedstat")
+            .ok()
+            .and_then(|s| s.split_whitespace().next().and_then(|x| x.parse::<u64>().ok()))
+            .unwrap_or(0)
+    }
     {
         let (halt, deadline) = (halt.clone(), deadline.clone());
-        std::thread::spawn(move || loop {
-            std::thread::sleep(Duration::from_millis(25));
-            let d = deadline.load(Ordering::SeqCst);
-            if d != 0 && t0.elapsed().as_millis() as u64 > d {
-                halt.store(true, Ordering::SeqCst);
+        std::thread::spawn(move || {
+            let mut seen: u64 = 0;
+            let mut since: u64 = 0;
+            loop {
+                std::thread::sleep(Duration::from_millis(25));
+                let d = deadline.load(Ordering::SeqCst);
+                if d == 0 {
+                    seen = 0;
+                    continue;
+                }
+                let now = cpu_ns();
+                if d != seen {
+                    seen = d;
+                    since = now;
+                    continue;
+                }
+                let fuse_ms = d & 0xfffff;
+                if now > since && (now - since) / 1_000_000 > fuse_ms {
+                    halt.store(true, Ordering::SeqCst);
+                }
             }
         });
     }
+    let case_no = std::cell::Cell::new(0u64);
+    let case_no = std::panic::AssertUnwindSafe(case_no);
+    let base_fuse: u64 = std::env::var("VERIF_C04_FUSE_MS").ok().and_then(|x| x.parse().ok()).unwrap_or(4000);
     let (halt, deadline) = (std::panic::AssertUnwindSafe(halt), std::panic::AssertUnwindSafe(deadline));
     serve(move |f| match f[0] {
         "R" => {
@@ -162,8 +187,9 @@ fn main() {
             TRACE.with(|t| t.borrow_mut().clear());
             halt.store(false, Ordering::SeqCst);
             // after three hangs the fuse gets short, so that a hanging mutant does not stall the check
-            let fuse = if HANGS.with(|h| *h.borrow()) >= 3 { 150 } else { 3000 };
-            deadline.store(t0.elapsed().as_millis() as u64 + fuse, Ordering::SeqCst);
+            let fuse = if HANGS.with(|h| *h.borrow()) >= 3 { base_fuse / 20 } else { base_fuse };
+            case_no.set(case_no.get() + 1);
+            deadline.store((case_no.get() << 20) | fuse.min(0xfffff), Ordering::SeqCst);
             let env = Env::new(None, None, Some(halt.0.clone()));
             let result = runner::run_script(&script, context, Some(env));
             deadline.store(0, Ordering::SeqCst);
